@@ -20,6 +20,7 @@ import (
 	"io"
 	"net"
 	"net/netip"
+	"os"
 	"runtime"
 	"sort"
 	"strconv"
@@ -57,10 +58,12 @@ type c13CmdRes struct {
 }
 
 type c13Res struct {
-	Cmds    []c13CmdRes `json:"cmds"`
-	Stuck   string      `json:"stuck,omitempty"`
-	Panic   string      `json:"panic,omitempty"`
-	CapUsed int         `json:"cap_used"`
+	Cmds          []c13CmdRes `json:"cmds"`
+	Stuck         string      `json:"stuck,omitempty"`
+	StuckDump     string      `json:"stuck_dump,omitempty"`
+	StuckRunnable bool        `json:"stuck_runnable,omitempty"`
+	Panic         string      `json:"panic,omitempty"`
+	CapUsed       int         `json:"cap_used"`
 }
 
 type c13Entry struct {
@@ -97,6 +100,8 @@ type c13Sched struct {
 	newQueue bool
 	abort    bool
 	popYield bool
+	foreign  map[int64]bool
+	wake     chan struct{}
 }
 
 var c13S *c13Sched
@@ -137,6 +142,80 @@ func c13Statuses() map[int64]string {
 		res[id] = st
 	}
 	return res
+}
+
+// settle deadlines are multiplied by VERIF_SETTLE_MULT (the driver re-runs schedules that timed out on a
+// loaded machine with 4x and 16x before it believes a deadlock)
+func c13SettleDeadline() time.Time {
+	mult := 1
+	if v, err := strconv.Atoi(os.Getenv("VERIF_SETTLE_MULT")); err == nil && v > 0 {
+		mult = v
+	}
+	return time.Now().Add(time.Duration(mult) * 4 * time.Second)
+}
+
+// goroutines that exist before a case starts (left-overs of an aborted case, runtime helpers) are never
+// treated as instrumented threads of the case
+func c13ExistingGoroutines() map[int64]bool {
+	res := map[int64]bool{}
+	for g := range c13Statuses() {
+		res[g] = true
+	}
+	return res
+}
+
+// dump of the given goroutines and whether any of them can run (runnable/running): a settle timeout with
+// every instrumented goroutine parked or blocked is a deadlock, one with a runnable goroutine is starvation
+func c13StuckDump(gids map[int64]bool) (string, bool) {
+	buf := make([]byte, 1<<20)
+	n := runtime.Stack(buf, true)
+	var sb strings.Builder
+	runnable := false
+	for _, blk := range strings.Split(string(buf[:n]), "\n\n") {
+		if !strings.HasPrefix(blk, "goroutine ") {
+			continue
+		}
+		rest := blk[len("goroutine "):]
+		i := strings.IndexByte(rest, ' ')
+		if i < 0 {
+			continue
+		}
+		id, err := strconv.ParseInt(rest[:i], 10, 64)
+		if err != nil || !gids[id] {
+			continue
+		}
+		st := rest[i+1:]
+		if strings.HasPrefix(st, "[runnable") || strings.HasPrefix(st, "[running") {
+			runnable = true
+		}
+		lines := strings.Split(blk, "\n")
+		if len(lines) > 14 {
+			lines = lines[:14]
+		}
+		sb.WriteString(strings.Join(lines, "\n"))
+		sb.WriteString("\n\n")
+		if sb.Len() > 12000 {
+			break
+		}
+	}
+	return sb.String(), runnable
+}
+
+// wait for a wake-up signal (an instrumented goroutine parked or finished) or a short, growing pause
+func c13Pause(wake chan struct{}, round int) {
+	runtime.Gosched()
+	d := 20 * time.Microsecond << uint(min(round, 7))
+	select {
+	case <-wake:
+	case <-time.After(d):
+	}
+}
+
+func c13Signal(wake chan struct{}) {
+	select {
+	case wake <- struct{}{}:
+	default:
+	}
 }
 
 func (s *c13Sched) ukey(k int) UdpFlowKey {
@@ -188,6 +267,7 @@ func (s *c13Sched) arrive(kind, id, point int) {
 	}
 	s.parked[gid] = e
 	s.mu.Unlock()
+	c13Signal(s.wake)
 	<-e.rel
 }
 
@@ -195,7 +275,11 @@ func (s *c13Sched) hook(point string) {
 	gid := c13Goid()
 	s.mu.Lock()
 	i, isProd := s.gidProd[gid]
+	foreign := s.foreign[gid]
 	s.mu.Unlock()
+	if foreign {
+		return
+	}
 	switch point {
 	case "acquire.after_load":
 		if isProd {
@@ -220,11 +304,18 @@ func (s *c13Sched) hook(point string) {
 
 func (s *c13Sched) task(t int) UdpTask {
 	return func() {
-		s.arrive(2, t, 6)
 		gid := c13Goid()
+		s.mu.Lock()
+		foreign := s.foreign[gid]
+		s.mu.Unlock()
+		if foreign {
+			return
+		}
+		s.arrive(2, t, 6)
 		s.mu.Lock()
 		s.raw = append(s.raw, c13Raw{class: 0, gid: gid, a: t})
 		s.mu.Unlock()
+		c13Signal(s.wake)
 	}
 }
 
@@ -240,6 +331,7 @@ func (s *c13Sched) startProducer(i int) {
 		s.mu.Lock()
 		s.prodDone[i] = true
 		s.mu.Unlock()
+		c13Signal(s.wake)
 	}()
 }
 
@@ -264,9 +356,9 @@ func (s *c13Sched) bind() {
 }
 
 func (s *c13Sched) settle(released *c13Entry, relGid int64, prod int) string {
-	deadline := time.Now().Add(4 * time.Second)
-	for {
-		time.Sleep(15 * time.Microsecond)
+	deadline := c13SettleDeadline()
+	for round := 0; ; round++ {
+		c13Pause(s.wake, round)
 		st := c13Statuses()
 		s.mu.Lock()
 		s.bind()
@@ -474,7 +566,7 @@ func c13RunCase(c c13Case) (res c13Res) {
 	}
 	s := &c13Sched{p: p, keys: c.Keys, parked: map[int64]*c13Entry{}, gidProd: map[int64]int{},
 		prodGid: make([]int64, len(c.Keys)), prodDone: make([]bool, len(c.Keys)), started: make([]bool, len(c.Keys)),
-		gidConv: map[int64]int{}, popYield: c.PopYield}
+		gidConv: map[int64]int{}, popYield: c.PopYield, foreign: c13ExistingGoroutines(), wake: make(chan struct{}, 1)}
 	c13S = s
 	VerifYield = s.hook
 	defer func() {
@@ -495,6 +587,18 @@ func c13RunCase(c c13Case) (res c13Res) {
 		res.Cmds = append(res.Cmds, r)
 		if stuck != "" {
 			res.Stuck = stuck
+			s.mu.Lock()
+			gids := map[int64]bool{}
+			for g, i := range s.gidProd {
+				if !s.prodDone[i] {
+					gids[g] = true
+				}
+			}
+			for g := range s.gidConv {
+				gids[g] = true
+			}
+			s.mu.Unlock()
+			res.StuckDump, res.StuckRunnable = c13StuckDump(gids)
 			return false
 		}
 		return true
@@ -986,9 +1090,11 @@ type c13FStep struct {
 }
 
 type c13FRes struct {
-	Steps       []c13FStep `json:"steps"`
-	FinalCloses []int      `json:"final_closes"` // transport close calls per endpoint after the final pool Reset
-	Stuck       string     `json:"stuck,omitempty"`
+	Steps         []c13FStep `json:"steps"`
+	FinalCloses   []int      `json:"final_closes"` // transport close calls per endpoint after the final pool Reset
+	Stuck         string     `json:"stuck,omitempty"`
+	StuckDump     string     `json:"stuck_dump,omitempty"`
+	StuckRunnable bool       `json:"stuck_runnable,omitempty"`
 }
 
 type c13FEntry struct {
@@ -1008,6 +1114,7 @@ type c13FSched struct {
 	conns   []*c13Conn
 	connUe  map[*c13Conn]*UdpEndpoint
 	abort   bool
+	wake    chan struct{}
 }
 
 func (s *c13FSched) hook(point string) {
@@ -1034,6 +1141,7 @@ func (s *c13FSched) hook(point string) {
 	e := &c13FEntry{thread: i, point: code, rel: make(chan struct{})}
 	s.parked[i] = e
 	s.mu.Unlock()
+	c13Signal(s.wake)
 	<-e.rel
 }
 
@@ -1091,7 +1199,7 @@ func c13RunFCase(c c13FCase) (res c13FRes) {
 	}
 	s := &c13FSched{parked: map[int]*c13FEntry{}, gidThr: map[int64]int{}, thrGid: make([]int64, len(c.Threads)),
 		started: make([]bool, len(c.Threads)), done: make([]bool, len(c.Threads)), resCode: make([]int, len(c.Threads)),
-		connUe: map[*c13Conn]*UdpEndpoint{}}
+		connUe: map[*c13Conn]*UdpEndpoint{}, wake: make(chan struct{}, 1)}
 	VerifYield = s.hook
 	logger := logrus.New()
 	logger.SetOutput(io.Discard)
@@ -1174,12 +1282,13 @@ func c13RunFCase(c c13FCase) (res c13FRes) {
 			}
 			s.done[i] = true
 			s.mu.Unlock()
+			c13Signal(s.wake)
 		}()
 	}
 	settle := func() string {
-		deadline := time.Now().Add(4 * time.Second)
-		for {
-			time.Sleep(15 * time.Microsecond)
+		deadline := c13SettleDeadline()
+		for round := 0; ; round++ {
+			c13Pause(s.wake, round)
 			st := c13Statuses()
 			s.mu.Lock()
 			stable := true
@@ -1355,6 +1464,15 @@ func c13RunFCase(c c13FCase) (res c13FRes) {
 		}
 		if stuck := settle(); stuck != "" {
 			res.Stuck = stuck
+			s.mu.Lock()
+			gids := map[int64]bool{}
+			for i, g := range s.thrGid {
+				if g != 0 && !s.done[i] {
+					gids[g] = true
+				}
+			}
+			s.mu.Unlock()
+			res.StuckDump, res.StuckRunnable = c13StuckDump(gids)
 			return false
 		}
 		st := observe(cmd)
